@@ -41,7 +41,7 @@ FAMILY = [
     "@a{k, t = {a} \"\n@b{j}", "@a{k,\n t = {a} =\n}\n@b{j}", "@string{s = {a}", "@string{s {a}}\n@b{j}", "@a{k=1}\n@b{j}",
     "@a{k\"1}\n@b{j}", "@a{k{1}\n@b{j}", "@a{k, t = 1,\n = }\n@b{j}", "x\\", "\\", "@a{k}\\", "@a{k, t = {\\}}\n@b{j}",
     "@a{k, a=1, a=2}\n@a{k, b=3}\n@string{s=1}@string{s=2}", "% only a comment", "@", "@a", "@a{", "@a{k", "@a{k,", "@a{k, t", "@a{k, t =",
-    "@a{k, t = {", "@a{k, t = {x}", "@a{k, t = {x},", " @a{k} x\x0b\x0c\x1c\x85@b{j}", "\r@a{k}\r@b{j}\rx",
+    "@a{k, t = {", "@a{k, t = {x}", "@a{k, t = {x},", "\ufeff% c\n@a{k}", "\ufeff@a{k}", "\ufeff\n\nfoo\n@a{k}", "\ufeff", "x\ufeff\n@a{k}\ufeff", " @a{k} x\x0b\x0c\x1c\x85@b{j}", "\r@a{k}\r@b{j}\rx",
 ]
 
 
@@ -61,7 +61,7 @@ def cases(tier, seed, shard, nshards):
     n = tier_pick(tier, 10000, 200000) // nshards
     for i in range(n):
         opts = grammar.Opts(max_items=r.choice([2, 4, 8]), entry_keys=r.choice([None, None, ["a", "b"]]),
-                            field_keys=r.choice([None, None, ["t", "u"]]))
+                            field_keys=r.choice([None, None, ["t", "u"]]), big=0.01)
         text, _ = grammar.document(r, opts)
         mode = i % 4
         if mode == 0:
